@@ -104,6 +104,36 @@ CLAIMED = {
              "changed by ++/-- (whole program); raiseSignal uses exchange, clearSignal unblocks first. FIFO/no-lost-wakeup over schedules is NOT decided.",
         technique="CFG dominance/ORDER with an event hook for announce-then-retest + whole-program who-writes",
         design="5/C56"),
+    "C35": dict(
+        text="tmSaneValues() returns 1 only with sec/min/hour/mday/mon inside their calendar ranges on every path (guard intervals), and "
+             "parse_date_elements() returns a tm only through tmSaneValues() and a successful make_month(). Round-trip over all times, "
+             "calendar correctness and the atoi()-based field conversion are not decided.",
+        technique="guard-interval (GINT) from must-facts + CFG dominance/response",
+        design="5/C35"),
+    "C37": dict(
+        text="Bounded reads of the rfc1035 decoders: every memcpy/dereference at buf + *off in NameUnpack/HeaderUnpack/RRUnpack/QueryUnpack is "
+             "covered on its own path by a byte budget established by a guard against sz after the last cursor change and not yet spent by "
+             "`*off += c`; compression recursion requires rdepth <= 64, ptr < sz and passes rdepth+1 and the remaining destination; a label is "
+             "copied only if it fits ns - no - 1; rdata is copied with the checked rdlength; answers are unpacked only while off < sz. "
+             "Decoded == encoded is not decided.",
+        technique="BUDGET: path-sensitive byte-budget dataflow over the cursor idiom + CFG dominance + call-argument shape",
+        design="5/C37"),
+    "C38": dict(
+        text="PROXY protocol rejection gates on all paths: v1 ports only from an unsigned decimal <= 65535 and after the declared/actual family "
+             "match; nothing of a v1 line is interpreted before the <=107-byte CRLF-terminated interior was isolated, 'need more' only at the "
+             "tokenizer end; v2 reads the header block only after version/command/family/proto bounds (against the named enumerators) and parses "
+             "addresses/TLVs from a tokenizer over that length-delimited block; consumed sizes come from the tokenizers; bad magic only when "
+             "enough bytes are buffered. Prefix-consistency and decoded == encoded are not decided.",
+        technique="CFG dominance with history facts (status of tokenizer calls) + guard intervals + definition-shape checks",
+        design="5/C38"),
+    "C39": dict(
+        text="HTCP: the (buf, sz) shrinking-window unpackers move buf and sz in lockstep, each 2-byte length field is consumed only after a fresh "
+             "successful parseUint16, each variable-length move only after l > sz was rejected, in-place terminators only overwrite owned bytes; "
+             "htcpHandleMsg copies header structs only after the matching size comparison and trusts hdr.length only within both bounds; receive "
+             "buffers keep a spare byte. ICP: minimum size before dispatch, header copy only if len >= sizeof, len == header.length, URL must end "
+             "exactly at the packet end. SNMP and use-after-free/abort freedom are not decided.",
+        technique="LOCKSTEP/BUDGET path-sensitive window accounting + CFG dominance + array-size facts",
+        design="5/C39"),
 }
 
 NOT_APPLICABLE = {
